@@ -206,7 +206,7 @@ theorem stepsOfH_noCT {cfg : Cfg} {thr ch : Nat} {sfx : String} {h : Hint} {old 
   · rename_i hact
     split
     · rfl
-    · rfl
+    · simp [Step.isCreateTemp]
     · simp
     · rename_i m n hpay
       split
